@@ -9,6 +9,9 @@ import (
 	"github.com/ontio/ontology/core/payload"
 	"github.com/ontio/ontology/core/signature"
 	"github.com/ontio/ontology/core/types"
+	"github.com/ontio/ontology/core/validation"
+	ontErrors "github.com/ontio/ontology/errors"
+	tc "github.com/ontio/ontology/txnpool/common"
 	"github.com/ontio/ontology/vm/neovm"
 
 	"ontosim/simkit"
@@ -23,7 +26,7 @@ func init() {
 	simkit.Register(&simkit.Prop{
 		ID:             "C16",
 		Desc:           "only correctly signed transactions paid by a signer are accepted",
-		Rule:           "a run = 8..40 client transactions (1..3 signature sets, single keys of every scheme incl. Ethereum-type, m-of-n groups, canonical and hand-assembled scripts) each altered in flight by a tape-chosen fault: none / one byte anywhere / a byte inside a signature / the payer / a signature set spliced in from another transaction / set duplicated / set dropped / m lowered in the script / a key listed twice with two signatures of the same signer / m signatures by fewer than m distinct members (a member signs twice, adjacent or not). A third of the transactions reach the validator after the tx pool's sender-limit check (GetSignatureAddresses on the same object, as for the transactions of a proposed block). The node's intake (TransactionFromRawBytes + validation.VerifyTransaction) must accept only if an independent verifier accepts: every set has >= m DISTINCT listed keys with a valid signature over the transaction hash and the payer is an account of one of the sets. non-trivial = >= 1 altered transaction accepted-or-rejected with the oracle evaluated and >= 1 unaltered accepted; distinct = distinct event-trace hash",
+		Rule:           "a run = 8..40 client transactions (1..3 signature sets, single keys of every scheme incl. Ethereum-type, m-of-n groups, canonical and hand-assembled scripts) each altered in flight by a tape-chosen fault: none / one byte anywhere / a byte inside a signature / the payer / a signature set spliced in from another transaction / set duplicated / set dropped / m lowered in the script / a key listed twice with two signatures of the same signer / m signatures by fewer than m distinct members (a member signs twice, adjacent or not). The unaltered accepted transactions are then put into a real txnpool/common.TXPool and a faulty proposer's block carries, for each, the same unsigned body (same hash) with another signature section (garbage signature / an extra never-signing account's script with an arbitrary signature / a set dropped / signatures over another hash): TXPool.GetUnverifiedTxs decides which go to the validator, the rest count as verified; the same oracle applies to every transaction the block verification accepts. A third of the transactions reach the validator after the tx pool's sender-limit check (GetSignatureAddresses on the same object, as for the transactions of a proposed block). The node's intake (TransactionFromRawBytes + validation.VerifyTransaction) must accept only if an independent verifier accepts: every set has >= m DISTINCT listed keys with a valid signature over the transaction hash and the payer is an account of one of the sets. non-trivial = >= 1 altered transaction accepted-or-rejected with the oracle evaluated and >= 1 unaltered accepted; distinct = distinct event-trace hash",
 		Real:           []string{"core/types transaction decoding", "core/validation.VerifyTransaction", "core/program script parsing", "core/signature, ontology-crypto"},
 		Stub:           []string{"client and corrupting link (harness)", "independent verifier (harness; uses the repo's script PARSER for structure, its own distinct-key counting and ontology-crypto for signatures)"},
 		Assumptions:    []string{"the direction checked is 'accepted only if' (soundness); an honest transaction being rejected is only counted (probe)", "script structure is taken from core/program.GetProgramInfo (trusted for structure, not for counting)"},
@@ -107,6 +110,7 @@ func runC16(c *simkit.Ctx) {
 		w := newClWorld(c, -1)
 		n := 8 + t.Choose(33)
 		var prevSets []clSigSet
+		var valid []c16Valid
 		unalteredOK, evaluated := 0, 0
 		for i := 0; i < n; i++ {
 			// a valid Ontology-format transaction, keeping its parts
@@ -243,6 +247,7 @@ func runC16(c *simkit.Ctx) {
 			if fault == 0 {
 				unalteredOK++
 				c.Probe("unaltered_accepted")
+				valid = append(valid, c16Valid{mt: mt, sets: sets, raw: raw, signers: signers})
 			}
 			if reason := c16Oracle(tx); reason != "" {
 				c.FailSoft("accepted-without-valid-authorisation", name, "transaction altered by %q was accepted by the node, but %s", name, reason)
@@ -252,10 +257,105 @@ func runC16(c *simkit.Ctx) {
 				c.Probe("altered_still_accepted_and_valid")
 			}
 		}
+		c16BlockIntake(c, w, valid)
 		if unalteredOK >= 1 && evaluated >= 2 {
 			c.NonTrivial()
 		}
 	}()
+}
+
+type c16Valid struct {
+	mt      *types.MutableTransaction
+	sets    []clSigSet
+	raw     []byte
+	signers []*clParty
+}
+
+// c16BlockIntake: the second way a transaction is accepted by a consensus node -
+// inside a block proposed by another (possibly faulty) peer. The tx pool's
+// GetUnverifiedTxs decides which transactions of the proposed block are sent to
+// the validator at all; the others count as verified because the pool holds a
+// verified transaction of the same hash. The hash of an Ontology-format
+// transaction does not cover its signature section, so the proposer can put
+// other signature sets under the body of a pooled transaction.
+func c16BlockIntake(c *simkit.Ctx, w *clWorld, valid []c16Valid) {
+	t := c.Tape
+	if len(valid) == 0 {
+		return
+	}
+	pool := tc.NewTxPool()
+	height := uint32(5 + t.Choose(100))
+	pooled := 0
+	for _, v := range valid {
+		tx, why := acceptTx(v.raw)
+		if tx == nil {
+			c.Harness("valid transaction rejected the second time: %s", why)
+		}
+		vh := height - uint32(t.Choose(2)) // verified at this height or one earlier (stateful re-check only)
+		if pool.AddTxList(&tc.VerifiedTx{Tx: tx, VerifiedHeight: vh}) == ontErrors.ErrNoError {
+			pooled++
+		}
+	}
+	var blockTxs []*types.Transaction
+	var names []string
+	for _, v := range valid {
+		sets := append([]clSigSet{}, v.sets...)
+		variant := t.Pick(2, 3, 3, 2, 2)
+		name := []string{"same-bytes", "garbage-signature", "foreign-script-with-garbage-signature", "drop-non-payer-set", "signature-of-other-hash"}[variant]
+		switch variant {
+		case 1:
+			k := t.Choose(len(sets))
+			inv := append([]byte(nil), sets[k].invoke...)
+			inv[1+t.Choose(len(inv)-1)] ^= byte(1 + t.Choose(255))
+			sets[k] = clSigSet{invoke: inv, verify: sets[k].verify}
+		case 2:
+			// an account that never signed: its canonical script, 64 arbitrary bytes as the signature
+			victim := w.parties[t.Choose(len(w.parties))]
+			fake := clSignSet(c, victim, sha256d(t.Bytes(8)), true)
+			sets = append(sets, fake)
+		case 3:
+			if len(sets) > 1 {
+				sets = sets[:len(sets)-1]
+			}
+		case 4:
+			for k, p := range v.signers {
+				sets[k] = clSignSet(c, p, sha256d(t.Bytes(8)), true)
+			}
+		}
+		raw := clAssemble(c, v.mt, sets)
+		tx, err := types.TransactionFromRawBytes(raw)
+		if err != nil {
+			continue
+		}
+		_ = tx.GetSignatureAddresses() // TXPoolServer.verifyBlock: sender-limit check first
+		blockTxs = append(blockTxs, tx)
+		names = append(names, name)
+	}
+	res := pool.GetUnverifiedTxs(blockTxs, height)
+	toValidator := map[*types.Transaction]bool{}
+	for _, tx := range res.UnverifiedTxs {
+		toValidator[tx] = true
+	}
+	for i, tx := range blockTxs {
+		accepted, how := true, "counted as verified (pool holds the hash)"
+		if toValidator[tx] {
+			how = "sent to the validator"
+			accepted = validation.VerifyTransaction(tx) == ontErrors.ErrNoError
+			c.Probe("block_tx_sent_to_validator")
+		} else {
+			c.Probe("block_tx_counted_verified_by_hash")
+		}
+		c.Logf("proposed block tx %d variant=%s: %s -> accepted=%v", i, names[i], how, accepted)
+		if !accepted {
+			c.Probe("block_tx_rejected")
+			continue
+		}
+		if reason := c16Oracle(tx); reason != "" {
+			c.FailSoft("accepted-without-valid-authorisation", "block-intake/"+names[i],
+				"a transaction of a proposed block (variant %q: same unsigned body and hash as a verified pooled transaction, other signature section) is accepted by the consensus node's block verification - %s - but %s; executing the block gives it the witnesses %x",
+				names[i], how, reason, tx.GetSignatureAddresses())
+		}
+	}
 }
 
 func programFromSigs(sigs [][]byte) []byte {
